@@ -207,7 +207,16 @@ def cli_level(ctx: Ctx, cs, base, real=False, strace=False):
         ctx.nontriv(cs, 'roundtrip', real)
     # 3. directory mode
     droot = os.path.join(root, 'tree')
-    layout = {'a.krn': text, 'b.kern': text, 'note.txt': 'not kern', 'sub/c.krn': text, 'sub/deep/d.kern': text, 'sub/e.ekrn': expect}
+    # a second score, so that files with the same name in different directories have different contents
+    doc2, _ = make_doc(cs ^ 0x2222, 'kern_only', max_spines=2)
+    text2 = doc2.text(0)
+    expect2, had_err2 = api_kern2ekern(text2)
+    if had_err2:
+        text2, expect2 = text, expect
+    layout = {'a.krn': text, 'b.kern': text2, 'note.txt': 'not kern', 'sub/c.krn': text, 'sub/deep/d.kern': text, 'sub/e.ekrn': expect,
+              'sub/a.krn': text2, 'sub/deep/a.kern': text, 'sub/deep/b.krn': text, 'other/c.krn': text2}
+    expected_out = {'a.ekrn': expect, 'b.ekrn': expect2, 'sub/c.ekrn': expect, 'sub/deep/d.ekrn': expect, 'sub/a.ekrn': expect2,
+                    'sub/deep/a.ekrn': expect, 'sub/deep/b.ekrn': expect, 'other/c.ekrn': expect2}
     for rel, t in layout.items():
         write(os.path.join(droot, rel), t)
     recursive = bool(rng.getrandbits(1))
@@ -215,7 +224,7 @@ def cli_level(ctx: Ctx, cs, base, real=False, strace=False):
     ctx.mon('cli_runs')
     ctx.mon('cli_directory_runs')
     run(['--kern2ekern', '--input_path', droot, '--verbose', '0'] + (['-r'] if recursive else []))
-    want = {'a.ekrn', 'b.ekrn'} | ({'sub/c.ekrn', 'sub/deep/d.ekrn'} if recursive else set())
+    want = {'a.ekrn', 'b.ekrn'} | ({k for k in expected_out if '/' in k} if recursive else set())
     have = set()
     for dp, dn, fn in os.walk(droot):
         for n in fn:
@@ -226,11 +235,34 @@ def cli_level(ctx: Ctx, cs, base, real=False, strace=False):
         ctx.violation('cli-directory', f'directory mode (recursive={recursive}) wrote {sorted(have)}, expected exactly {sorted(want)}', case)
     else:
         for rel in sorted(have):
-            if read(os.path.join(droot, rel)) != expect:
-                ctx.violation('cli-directory', f'{rel} differs from the API result', case)
+            if read(os.path.join(droot, rel)) != expected_out[rel]:
+                ctx.violation('cli-directory', f'{rel} differs from the API result for its own input file', case)
                 break
     if read(os.path.join(droot, 'sub/e.ekrn')) != expect or read(os.path.join(droot, 'a.krn')) != text:
         ctx.violation('cli-directory', 'directory mode modified an input file', case)
+    # the reverse converter in directory mode: every .ekrn / .ekern becomes the .krn next to it
+    eroot = os.path.join(root, 'etree')
+    elayout = {'x.ekrn': expect, 'sub/x.ekrn': expect2, 'sub/y.ekern': expect, 'deep/er/x.ekern': expect2, 'z.txt': 'no'}
+    for rel, t in elayout.items():
+        write(os.path.join(eroot, rel), t)
+    ctx.ev()
+    ctx.mon('cli_runs')
+    ctx.mon('cli_directory_runs')
+    run(['--ekern2kern', '--input_path', eroot, '--verbose', '0'] + (['-r'] if recursive else []))
+    ewant = {'x.krn': expect} if not recursive else {'x.krn': expect, 'sub/x.krn': expect2, 'sub/y.krn': expect, 'deep/er/x.krn': expect2}
+    ehave = {}
+    for dp, dn, fn in os.walk(eroot):
+        for n in fn:
+            if n.endswith('.krn'):
+                rel = os.path.relpath(os.path.join(dp, n), eroot)
+                ehave[rel] = read(os.path.join(dp, n))
+    if set(ehave) != set(ewant):
+        ctx.violation('cli-directory', f'ekern2kern directory mode (recursive={recursive}) wrote {sorted(ehave)}, expected {sorted(ewant)}', case)
+    else:
+        for rel, src in ewant.items():
+            if ehave[rel] != kp.get_kern_from_ekern(src):
+                ctx.violation('cli-directory', f'ekern2kern: {rel} differs from get_kern_from_ekern of its own input', case)
+                break
     shutil.rmtree(root, ignore_errors=True)
 
 
